@@ -104,18 +104,33 @@ def _split_top(text):
 
 
 def run(module, cfg=None, *, workers=1, env=None, simulate=None, depth=None, seed=None, timeout=1800,
-        coverage=False, deadlock=False, extra=(), specs_dir=None, jvm=(), allow_violation=True, heap='4g', cfg_text=None):
+        coverage=False, deadlock=False, extra=(), specs_dir=None, jvm=(), allow_violation=True, heap='4g', cfg_text=None, defs=None):
     """Run TLC on specs/<module>.tla with specs/<cfg> (or the literal cfg_text). Returns TLCResult.
-    Raises TLCError on machinery failure."""
+    Raises TLCError on machinery failure.
+    defs: {constant name: TLA+ expression text} for constants the cfg grammar cannot express (tuples, records):
+    a wrapper module extending <module> is generated in the scratch directory and the constants are substituted."""
     specs_dir = specs_dir or SPECS
     cfg = cfg or (module + '.cfg')
     meta = tempfile.mkdtemp(prefix='verif_tlc_')
+    run_dir = specs_dir
+    if defs:
+        assert cfg_text is not None
+        wrapper = 'MC' + module
+        with open(os.path.join(meta, wrapper + '.tla'), 'w') as f:
+            f.write(f'---- MODULE {wrapper} ----\nEXTENDS {module}\n')
+            for k, v in defs.items():
+                f.write(f'def_{k} == {v}\n')
+            f.write('====\n')
+        cfg_text = cfg_text + ''.join(f'CONSTANT {k} <- def_{k}\n' for k in defs)
+        jvm = tuple(jvm) + (f'-DTLA-Library={specs_dir}',)
+        module = wrapper
+        run_dir = meta
     if cfg_text is not None:
         cfg = os.path.join(meta, 'generated.cfg')
         with open(cfg, 'w') as f:
             f.write(cfg_text)
     cmd = ['java', '-XX:+UseParallelGC', '-Xmx' + heap, '-Xss64m', *jvm, '-cp', JAR, 'tlc2.TLC',
-           '-workers', str(workers), '-metadir', meta, '-noGenerateSpecTE', '-config', cfg]
+           '-workers', str(workers), '-metadir', os.path.join(meta, 'states'), '-noGenerateSpecTE', '-config', cfg]
     if not deadlock:
         cmd.append('-deadlock')   # -deadlock DISABLES deadlock checking
     if coverage:
@@ -133,7 +148,7 @@ def run(module, cfg=None, *, workers=1, env=None, simulate=None, depth=None, see
         e.update({k: str(v) for k, v in env.items()})
     t0 = time.time()
     try:
-        p = subprocess.run(cmd, cwd=specs_dir, env=e, stdout=subprocess.PIPE, stderr=subprocess.STDOUT,
+        p = subprocess.run(cmd, cwd=run_dir, env=e, stdout=subprocess.PIPE, stderr=subprocess.STDOUT,
                            timeout=timeout, text=True)
     except subprocess.TimeoutExpired as ex:
         shutil.rmtree(meta, ignore_errors=True)
@@ -217,3 +232,33 @@ def sany(module, specs_dir=None):
                        stdout=subprocess.PIPE, stderr=subprocess.STDOUT, text=True)
     ok = p.returncode == 0 and 'Semantic errors' not in p.stdout and 'Parse Error' not in p.stdout and '*** Errors' not in p.stdout
     return ok, p.stdout
+
+
+def tla(v):
+    """Python value -> TLA+ expression text (ints, bools, strings, lists as sequences, sets, dicts as records)."""
+    if isinstance(v, bool):
+        return 'TRUE' if v else 'FALSE'
+    if isinstance(v, int):
+        return str(v)
+    if isinstance(v, str):
+        return json.dumps(v)
+    if isinstance(v, (list, tuple)):
+        return '<<' + ', '.join(tla(x) for x in v) + '>>'
+    if isinstance(v, (set, frozenset)):
+        return '{' + ', '.join(tla(x) for x in sorted(v, key=str)) + '}'
+    if isinstance(v, dict):
+        return '[' + ', '.join(f'{k} |-> {tla(x)}' for k, x in v.items()) + ']'
+    raise TypeError(type(v))
+
+
+def cfg(spec='Spec', constants=None, invariants=(), properties=(), constraint=None, extra=''):
+    """Build a cfg text; constants: {name: python value of a cfg-expressible kind (int, str, bool, set of those)}."""
+    lines = [f'SPECIFICATION {spec}']
+    for k, v in (constants or {}).items():
+        lines.append(f'CONSTANT {k} = {tla(v)}')
+    lines += [f'INVARIANT {i}' for i in invariants]
+    lines += [f'PROPERTY {p}' for p in properties]
+    if constraint:
+        lines.append(f'CONSTRAINT {constraint}')
+    lines.append('CHECK_DEADLOCK FALSE')
+    return '\n'.join(lines) + '\n' + extra
